@@ -740,9 +740,15 @@ fn check_program(level: &'static str, text: &str, expect: &str, why: &str, use_d
             errors = d;
         }
     }
-    // the reference compiler cross-checks the generator at 5.5
-    let mut expect = expect.to_string();
-    if level == "Lua55" {
+    // the reference compiler cross-checks the generator at 5.5 ("reject!" = certain by the manuals: luars, which
+    // e.g. accepts `function <reserved word>() end`, is not asked)
+    let sure_reject = expect == "reject!";
+    let mut expect = if sure_reject { "reject".to_string() } else { expect.to_string() };
+    if level == "Lua55" && sure_reject {
+        if r55.compile(text).is_ok() {
+            report.count("program_ref55_accepts_a_certainly_invalid_program");
+        }
+    } else if level == "Lua55" {
         match r55.compile(text) {
             Ok(()) => {
                 if expect == "reject" {
@@ -882,6 +888,13 @@ pub fn run(args: &Args, report: &mut Report) {
         // constructs of later versions must be rejected at this level
         for (m, why) in progen::too_new(&mut rng, lv) {
             check_program(lname, &m, "reject", why, false, report, &mut diag, &mut r55);
+        }
+    }
+    // 3b. words that are reserved at some level and identifiers at another, in every name position
+    for (lname, lv) in STD_LEVELS.iter().copied() {
+        for (text, expect, why) in progen::soft_word_cases(lv) {
+            report.count(&format!("softword_{}", expect.trim_end_matches('!')));
+            check_program(lname, &text, expect, &why, true, report, &mut diag, &mut r55);
         }
     }
     report.notes.push("reference acceptor: luars (Lua 5.5 compiler, compile only) for level 5.5; for 5.1-5.4 no reference binary exists in the sandbox, the generator emits only constructs of that level and injected errors are limited to mutations that are invalid in every version".into());
